@@ -23,7 +23,7 @@ func init() {
 		"os.OpenFile": "ModelOpenFile", "os.Open": "ModelOpen", "os.Create": "ModelCreate", "os.Stat": "ModelStat", "os.Lstat": "ModelStat",
 		"os.MkdirAll": "ModelMkdirAll", "os.Mkdir": "ModelMkdirAll", "os.ReadDir": "ModelReadDir", "os.RemoveAll": "ModelRemoveAll",
 		"os.Remove": "ModelRemove", "os.ReadFile": "ModelReadFile", "os.WriteFile": "ModelWriteFile", "os.IsNotExist": "ModelIsNotExist",
-		"os.IsExist": "ModelIsExist", "os.TempDir": "ModelOSTempDir", "os.Getenv": "ModelGetenv", "os.Setenv": "ModelSetenv",
+		"os.IsExist": "ModelIsExist", "os.TempDir": "ModelOSTempDir", "os.Getenv": "ModelGetenv", "os.Setenv": "ModelSetenv", "os.IsTimeout": "ModelIsTimeout",
 		"(*os.File).Read": "ModelFileRead", "(*os.File).Write": "ModelFileWrite", "(*os.File).WriteString": "ModelFileWriteString",
 		"(*os.File).ReadFrom": "ModelFileReadFrom", "(*os.File).Seek": "ModelFileSeek", "(*os.File).Truncate": "ModelFileTruncate",
 		"(*os.File).Close": "ModelFileClose", "(*os.File).Stat": "ModelFileStat", "(*os.File).Name": "ModelFileName", "(*os.File).Sync": "ModelFileSync",
